@@ -458,8 +458,10 @@ def l_remove(interp, recv, args):
     x = args[0]
     if x < 0:
         raise interp.error("IndexError", "Cannot remove at negative index")
-    if x != math.floor(x):
-        raise _model().Unsupported("fractional index to remove")
+    if x != x or (math.isfinite(x) and x != math.floor(x)):
+        raise interp.error("IndexError", "Index must be an integer.")
+    if not math.isfinite(x):
+        raise interp.error("IndexError", "Cannot remove at index")
     i = int(x)
     if i >= len(recv.items):
         raise interp.error("IndexError", "Cannot remove at index")
@@ -470,8 +472,10 @@ def l_insert(interp, recv, args):
     x = args[0]
     if x < 0:
         raise interp.error("IndexError", "Cannot insert at index")
-    if x != math.floor(x):
-        raise _model().Unsupported("fractional index to insert")
+    if x != x or (math.isfinite(x) and x != math.floor(x)):
+        raise interp.error("IndexError", "Index must be an integer.")
+    if not math.isfinite(x):
+        raise interp.error("IndexError", "Cannot insert at index")
     i = int(x)
     if i > len(recv.items):
         raise interp.error("IndexError", "Cannot insert at index")
@@ -817,19 +821,18 @@ def it_last(interp, recv, args):
 
 def it_take(interp, recv, args):
     x = args[0]
-    if x != math.floor(x):
+    if not math.isfinite(x) or x != math.floor(x):
+        # (the vm's test is fract() != 0: NaN and the infinities have a NaN fraction)
         raise interp.error("ValueError", "Method skip takes an integer parameter.")
-    if x < 0 or not math.isfinite(x):
-        raise _model().Unsupported("negative take")
+    if x < 0:
+        raise interp.error("ValueError", "Method take takes an non negative integer parameter.")
     return TakeIt(recv, int(x))
 
 
 def it_skip(interp, recv, args):
     x = args[0]
-    if x != math.floor(x) or x < 0:
+    if not math.isfinite(x) or x != math.floor(x) or x < 0:
         raise interp.error("ValueError", "Method skip takes an non negative integer parameter.")
-    if not math.isfinite(x):
-        raise _model().Unsupported("infinite skip")
     n = int(x)
     k = 0
     while k < n and recv.next():
